@@ -3,6 +3,7 @@ module slimverif/harness
 go 1.21
 
 require (
+	github.com/blang/semver v3.5.1+incompatible
 	github.com/golang/protobuf v1.3.1
 	github.com/openacid/errors v0.8.1
 	github.com/openacid/low v0.1.21
@@ -11,7 +12,6 @@ require (
 )
 
 require (
-	github.com/blang/semver v3.5.1+incompatible // indirect
 	github.com/davecgh/go-spew v1.1.1 // indirect
 	github.com/openacid/must v0.1.3 // indirect
 	github.com/pmezard/go-difflib v1.0.0 // indirect
